@@ -39,11 +39,13 @@ def r11_1(ctx):
         sc = ctx.scope(f)
         phase = f.params[1]
         free_test = "isinstance(stage.%s, FreeTime)" % attr
-        tests = {ast.unparse(t) for st in ast.walk(f.node) if isinstance(st, (ast.If, ast.IfExp)) for t in [st.test]}
+        from ..paths import canon_guard
+        tests = {canon_guard(t)[0] for st in ast.walk(f.node) if isinstance(st, (ast.If, ast.IfExp)) for t in [st.test]}
         ctx.check(any(phase in t for t in tests), "fill_placeholders_%s has a phase-1 branch" % which, detail="phase structure", expected="a test on phase", found=sorted(tests), fi=f)
         ctx.check(free_test in tests, "fill_placeholders_%s promotes exactly when the declaration is a FreeTime" % which, detail="promotion condition", expected=free_test, found=sorted(tests), fi=f)
         paths = {}
-        for label, env in (("free", {phase: 1, free_test: True}), ("fixed", {phase: 1, free_test: False}), ("later", {phase: 2, free_test: True}), ("later-fixed", {phase: 2, free_test: False})):
+        for label, env in (("free", {phase: 1, free_test: True, "not " + free_test: False}), ("fixed", {phase: 1, free_test: False, "not " + free_test: True}),
+                           ("later", {phase: 2, free_test: True, "not " + free_test: False}), ("later-fixed", {phase: 2, free_test: False, "not " + free_test: True})):
             try:
                 paths[label] = run_path(f.node.body, env, None)
             except Unknown as e:
